@@ -656,6 +656,7 @@ func (w *worldA) tweak(r *simrt.Rand, s *AScenario, end int) {
 		for ci := range s.Clients {
 			s.Clients[ci].HoldOpen = r.Bool(50)
 		}
+		s.Out2 = r.Bool(30) // two buffers to shut down, one after the other
 	case "c19":
 		// the equations are asserted on runs without reachable limits
 		if r.Bool(50) {
@@ -850,6 +851,10 @@ func (w *worldA) Run(t *testing.T, profile string, sc any, cfg simrt.Config) *Ou
 		cfg.MaxSteps = 600_000 // an ordinary run takes 2-30 thousand steps; a run that reconnects forever is cut and counted, not judged
 	}
 	simsync.Mode = simsync.PoolMode(s.PoolMode)
+	c18Outputs = 1
+	if s.Out2 {
+		c18Outputs = 2
+	}
 	// released backing buffers are poisoned: whatever still reads them after the release shows as a difference, not as luck
 	simsync.OnPut = func(x any) {
 		if b, ok := x.(*[]byte); ok && b != nil && s.Poison {
@@ -1039,7 +1044,7 @@ func (r *aRun) drive() {
 	if s.Out2 {
 		r.fs.MkdirAllRaw(aBufRoot2)
 		r.srv2 = newAServer(r)
-		r.srv2.addr, r.srv2.healthyOnly, r.srv2.name = aUpstreamAddr2, s.Profile != "c01two", "fluentd2"
+		r.srv2.addr, r.srv2.healthyOnly, r.srv2.name = aUpstreamAddr2, s.Profile != "c01two" && s.Profile != "c18", "fluentd2"
 		r.srv2.start()
 	}
 	if !r.startAgent() {
